@@ -112,28 +112,49 @@ class BooleanExpression(Expression):
         )
 
     def __str__(self) -> str:
-        def _str(expression: Expression, parent_precedence: int) -> str:
+        def _operand(expression: Expression) -> str:
+            # An operand of a comparison or membership operator. The parser gives
+            # these operators a higher precedence than `and`, `or` and `not`, and
+            # chains them to the right, so compound operands need parentheses.
+            if isinstance(
+                expression,
+                (LogicalAndExpression, LogicalOrExpression, LogicalNotExpression),
+            ) or isinstance(expression, _INFIX_EXPRESSIONS):
+                return f"({_str(expression, 0)})"
+            return str(expression)
+
+        def _str(
+            expression: Expression, parent_precedence: int, *, left: bool = False
+        ) -> str:
+            # `and` and `or` have equal precedence and are right associative, and
+            # `not` applies to everything to its right. So a logical expression
+            # that is the left operand of `and` or `or` always needs parentheses.
             if isinstance(expression, LogicalAndExpression):
                 precedence = PRECEDENCE_LOGICAL_AND
                 op = "and"
-                left = _str(expression.left, precedence)
+                left_ = _str(expression.left, precedence, left=True)
                 right = _str(expression.right, precedence)
             elif isinstance(expression, LogicalOrExpression):
                 precedence = PRECEDENCE_LOGICAL_OR
                 op = "or"
-                left = _str(expression.left, precedence)
+                left_ = _str(expression.left, precedence, left=True)
                 right = _str(expression.right, precedence)
             elif isinstance(expression, LogicalNotExpression):
                 operand_str = _str(expression.right, PRECEDENCE_PREFIX)
                 expr = f"not {operand_str}"
-                if parent_precedence > PRECEDENCE_PREFIX:
+                if left or parent_precedence > PRECEDENCE_PREFIX:
                     return f"({expr})"
                 return expr
+            elif isinstance(expression, _INFIX_EXPRESSIONS):
+                op = _INFIX_OPERATORS[type(expression)]
+                return (
+                    f"{_operand(expression.left)} {op} {_operand(expression.right)}"
+                )
             else:
                 return str(expression)
 
-            expr = f"{left} {op} {right}"
-            if precedence < parent_precedence:
+            expr = f"{left_} {op} {right}"
+            if left or precedence < parent_precedence:
                 return f"({expr})"
             return expr
 
@@ -425,6 +446,19 @@ class ContainsExpression(Expression):
 
     def children(self) -> list[Expression]:
         return [self.left, self.right]
+
+
+_INFIX_OPERATORS: dict[type, str] = {
+    EqExpression: "==",
+    NeExpression: "!=",
+    LeExpression: "<=",
+    GeExpression: ">=",
+    LtExpression: "<",
+    GtExpression: ">",
+    ContainsExpression: "contains",
+}
+
+_INFIX_EXPRESSIONS = tuple(_INFIX_OPERATORS)
 
 
 def parse_boolean_primitive(  # noqa: PLR0912
